@@ -1254,9 +1254,10 @@ impl<'a> Walk<'a> {
                                 self.errors.push("increment of const".into());
                             }
                             let base = m.type_registry.remove_modifier(t.0);
+                            // enums are incrementable by decision (fix 606facd keeps `is_incrementable` true for them)
                             let numeric = matches!(
                                 m.type_registry.get_type_layer(base),
-                                ir::TypeLayer::Scalar(_) | ir::TypeLayer::Vector(..) | ir::TypeLayer::Matrix(..)
+                                ir::TypeLayer::Scalar(_) | ir::TypeLayer::Vector(..) | ir::TypeLayer::Matrix(..) | ir::TypeLayer::Enum(_)
                             );
                             if !numeric || m.type_registry.extract_scalar(base) == Some(ScalarType::Bool) {
                                 self.errors.push(format!("increment of a non-numeric operand: {}", self.show(t.0)));
